@@ -608,3 +608,8 @@ for _k in ('C01', 'C02', 'C20'):
     CHECKS[_k]['text'] += (" process_layouts (contracts/layouts.py): for buffers of 0..3 pending layout markers (4 in the thorough tier) and EVERY handler table (free choice per rule tuple) "
                            "the handler calls are a contiguous, in-order, repetition-free cover of the buffer, every handler sees the true neighbour texts and the text of the previous fragment of the run, "
                            "and exactly the handlers' fragments are yielded; which groups are merged is decided per production by the table obligations.")
+CHECKS['C09']['text'] += (" Round 8 (contracts/smsmall.py): Names.__init__ (empty table, current index 0), Names.__iter__ (the names array lists the names in the order of their indices, for every "
+                          "insertion order of up to four names), Book.__init__ and default_book (generated columns counted from 0, source lines / columns from 1: what sourcemap.write's contract assumes of a default book).")
+for _k in ('C11', 'C08'):
+    CHECKS[_k]['text'] += (" Round 8 (contracts/positions.py): Node.findpos for all integers ply may answer (offset and line of exactly the slot asked for, the column looked up for exactly these two, 0 without "
+                           "a positive line or without the lexer's helper), Node.getpos for all indices >= 0 (the idx-th recorded position of the text, the implied (0, 0, 0) beyond).")
